@@ -480,6 +480,10 @@ pub(crate) mod verif_probe {
         }
         a_out.extend(drain(&mut a, 100).await);
         let paused_at_end = pool.paused();
+        // what SHOW CLIENTS / SHOW SERVERS would list for this pool now (A idle or gone)
+        tokio::time::sleep(Duration::from_millis(30)).await;
+        let clients_after_a: Vec<Value> = crate::stats::get_client_stats().values().filter(|c| c.pool_name() == db)
+            .map(|c| json!(format!("{}", c.state.load(Ordering::Relaxed)))).collect();
         // where a CancelRequest with a client key would be sent right now (A idle or gone)
         let csmap_after_a: Vec<Value> = csmap.lock().iter().map(|(k, v)| json!([k.0, k.1, v.0, v.1])).collect();
         let mut b_out: Vec<u8> = vec![];
@@ -505,7 +509,7 @@ pub(crate) mod verif_probe {
             "delivered": r.delivered.iter().map(|d| hexs(d)).collect::<Vec<_>>(), "status_after": r.status_after,
             "before": {"status": r.before.status, "copy_in": r.before.copy_in, "dirty_set": r.before.dirty_set, "role_set": r.before.role_set,
                        "sql_prepared": r.before.sql_prepared, "named": r.before.named, "unsynced": r.before.unsynced, "params": r.before.params}})).collect();
-        json!({"csmap_after_a": csmap_after_a, "a_result": a_task_result, "a_out": hexs(&a_out), "b_out": hexs(&b_out), "b_state": b_state, "reqs": reqs, "paused_at_end": paused_at_end})
+        json!({"clients_after_a": clients_after_a, "csmap_after_a": csmap_after_a, "a_result": a_task_result, "a_out": hexs(&a_out), "b_out": hexs(&b_out), "b_state": b_state, "reqs": reqs, "paused_at_end": paused_at_end})
     }
 
     /// Client A runs `prep` queries (simple protocol), then sends the raw `trigger` bytes and is awaited;
